@@ -170,6 +170,32 @@ func init() {
 				v = h
 			}
 			lon, lat, alt, lon2, lat2, alt2 := genSeg(h, v)
+			if rng.Intn(12) == 0 {
+				// across the whole grid at a coarse zoom: the end voxels lie in the first and the last column (or row), which the
+				// modular neighbour queries regard as adjacent — the segment does not go round the world, it crosses it
+				h = int64(1 + rng.Intn(5))
+				if sp {
+					v = h
+				}
+				wAlt := math.Pow(2, float64(25-v))
+				alt = (rng.Float64() - 0.5) * 2 * wAlt
+				alt2 = alt
+				if rng.Intn(3) == 0 {
+					alt2 = alt + (rng.Float64()-0.5)*2*wAlt
+				}
+				if rng.Intn(2) == 0 { // west to east (or back)
+					lat = rng.Float64()*160 - 80
+					lat2 = lat
+					lon, lon2 = -180+rng.Float64()*(360/math.Pow(2, float64(h))), 180-rng.Float64()*(360/math.Pow(2, float64(h)))
+				} else { // north to south
+					lon = rng.Float64()*358 - 179
+					lon2 = lon
+					lat, lat2 = 84+rng.Float64(), -84-rng.Float64()
+				}
+				if rng.Intn(2) == 0 {
+					lon, lat, alt, lon2, lat2, alt2 = lon2, lat2, alt2, lon, lat, alt
+				}
+			}
 			args := []string{fbits(lon), fbits(lat), fbits(alt), fbits(lon2), fbits(lat2), fbits(alt2)}
 			switch rng.Intn(60) {
 			case 0:
